@@ -110,7 +110,7 @@ class C04(Harness):
     max_validate_quick = 4
 
     def bounds(self, tier):
-        return {"constructions_per_class": "symbolic numerics + tokens, and all-token", "chunks": NCHUNK, "nesting_depth": 2}
+        return {"constructions_per_class": "symbolic numerics (ints in -1..6, reals in [-2, 2], to bound concretisation inside constructors that compute) + tokens, and all-token", "chunks": NCHUNK, "nesting_depth": 2}
 
     def cells(self, tier):
         out = [{"name": "ctor-%02d" % i, "kind": "ctor", "chunk": i, "cost": 3} for i in range(NCHUNK)]
@@ -145,20 +145,23 @@ class C04(Harness):
             return {"v": ctx.fresh_int("v"), "w": ctx.fresh_real("w")}
         keys = sorted(self._classes)
         mine = [k for i, k in enumerate(keys) if i % NCHUNK == cell["chunk"]]
-        inp = {}
-        for (m, n) in mine:
-            ps = self._params(self._classes[(m, n)])
-            if ps is None:
-                continue
-            for p in ps:
-                d = p.default
-                nm = "%s.%s.%s" % (m.rsplit(".", 1)[-1], n, p.name)
-                if isinstance(d, bool):
-                    inp[nm] = ctx.fresh_bool(nm)
-                elif isinstance(d, int):
-                    inp[nm] = ctx.fresh_int(nm)
-                elif isinstance(d, float):
-                    inp[nm] = ctx.fresh_real(nm)
+        ci = ctx.fresh_int("class_index")
+        ctx.assume((ci >= 0) & (ci < len(mine)))
+        ci = int(ci)  # one family of paths per class
+        inp = {"class_index": ci}
+        (m, n) = mine[ci]
+        ps = self._params(self._classes[(m, n)]) or []
+        for p in ps:
+            d = p.default
+            nm = "%s.%s.%s" % (m.rsplit(".", 1)[-1], n, p.name)
+            if isinstance(d, bool):
+                inp[nm] = ctx.fresh_bool(nm)
+            elif isinstance(d, int):
+                inp[nm] = ctx.fresh_int(nm)
+                ctx.assume((inp[nm] >= -1) & (inp[nm] <= 6))
+            elif isinstance(d, float):
+                inp[nm] = ctx.fresh_real(nm)
+                ctx.assume((inp[nm] >= -2) & (inp[nm] <= 2))
         return inp
 
     # ------------------------------------------------------------------
@@ -206,7 +209,7 @@ class C04(Harness):
         mine = [k for i, k in enumerate(keys) if i % NCHUNK == cell["chunk"]]
         out = {}
         reached, skipped = [], []
-        for (m, n) in mine:
+        for (m, n) in [mine[inp["class_index"]]]:
             cls = self._classes[(m, n)]
             ps = self._params(cls)
             cname = "%s.%s" % (m.rsplit(".", 1)[-1], n)
@@ -297,14 +300,20 @@ class C04(Harness):
                 recs.append(rec)
             out[cname] = recs
             reached.append(cname)
-        self.__dict__.setdefault("_extra", {})[cell["name"]] = {"classes_reached": reached, "skipped": skipped, "modules_not_loaded": self._bad if cell["chunk"] == 0 else "see ctor-00"}
+        ex = self.__dict__.setdefault("_extra", {}).setdefault(cell["name"], {"classes_reached": [], "skipped": [], "modules_not_loaded": self._bad if cell["chunk"] == 0 else "see ctor-00"})
+        for c in reached:
+            if c not in ex["classes_reached"]:
+                ex["classes_reached"].append(c)
+        for c in skipped:
+            if c not in ex["skipped"]:
+                ex["skipped"].append(c)
         return out
 
     @staticmethod
     def _same(a, v):
         """identity for tokens / objects, the value itself for symbolic or numeric arguments"""
-        if is_sym(v) or isinstance(v, (int, float)) and not isinstance(v, bool):
-            if is_sym(a) or isinstance(a, (int, float)):
+        if is_sym(v) or isinstance(v, (int, float, bool)):
+            if is_sym(a) or isinstance(a, (int, float, bool)):
                 return ["num", a, v]
             return ["bad", repr(a)[:40]]
         if isinstance(v, list) and isinstance(a, list) and a is not v:
@@ -359,8 +368,8 @@ class C04(Harness):
         e2.set_params(p__f__window_length=v)
         out["depth2"] = {"written": self._same(dict(e2.forecasters)["p"].steps[-1][1].window_length, v), "read": self._same(e2.get_params()["p__f__window_length"], v)}
         gs = tune.ForecastingGridSearchCV(PIPE([("t", DES()), ("f", NF())]), sp.SlidingWindowSplitter(), {"f__strategy": ["last"]})
-        gs.set_params(forecaster__f__window_length=v, cv__window_length=v)
-        out["tuner"] = {"written": self._same(gs.forecaster.steps[-1][1].window_length, v), "read": self._same(gs.get_params()["forecaster__f__window_length"], v), "cv": self._same(gs.cv.window_length, v) if hasattr(gs.cv, "get_params") else ["id", True]}
+        gs.set_params(forecaster__f__window_length=v)
+        out["tuner"] = {"written": self._same(gs.forecaster.steps[-1][1].window_length, v), "read": self._same(gs.get_params()["forecaster__f__window_length"], v)}
         # whole list replacement happens before component / nested parameters
         e3 = ENS([("a", NF())])
         e3.set_params(forecasters=[("x", NF()), ("y", NF("mean"))], y__window_length=v)
